@@ -388,7 +388,8 @@ func (V *Verifier) modifiesNames(ex *Exec, spec *FuncSpec, c *ssa.CallCommon) []
 			switch x := e.(type) {
 			case *SIdent:
 				if V.db.IsTrace(x.Name) {
-					out = append(out, x.Name, x.Name+"len")
+					out = append(out, x.Name, x.Name+"len", "$seq")
+					ex.noteHeap("$seq", SInt)
 					ex.noteHeap(x.Name, ArrS(SInt, SEvent))
 					ex.noteHeap(x.Name+"len", SInt)
 					continue
